@@ -88,6 +88,18 @@ def _signature_lookups(facts, it, res, dd):
     """executable look-ups of the signature table: HashMap::get called directly, or inside a closure handed to an Option
     combinator (`key.as_ref().and_then(|k| table.get(k))`) whose receiver is not certainly None"""
     out = [b for b, c in res.reachable_calls() if _is_map_get(c)]
+    # look-ups wrapped in a same-file helper (`state.find_duplicate(&node_key)`): executable unless the key handed in is None
+    for b, c in res.reachable_calls():
+        hb = facts.bodies.get(c or "")
+        if hb is None or hb.kind == "closure" or hb.file != dd.file or hb is dd:
+            continue
+        fam = [hb] + list(facts.closures_of(hb.id))
+        if not any(_is_map_get(callee_name(ct)) for fb in fam for _, ct in fb.calls()):
+            continue
+        vals = [it.eval_operand(res.env, a) for a in dd.term(b)["args"]]
+        if any(v not in (V.TOP, V.BOT) and v[0] == "enum" and v[3] == "None" for v in vals):
+            continue
+        out.append(b)
     for b, c in res.reachable_calls():
         if not c or not c.startswith("std::option::Option") or not c.endswith(("::and_then", "::map", "::map_or", "::map_or_else",
                                                                                 "::is_some_and", "::filter", "::inspect")):
